@@ -71,4 +71,12 @@ LastIsPlain == hist # <<>> /\ hist[Len(hist)].op = "read" =>
 Capacity == Len(lru) <= NE /\ Cardinality({slot[i] : i \in 1..Len(slot)}) = Len(slot)
 EmitEdge == PrintT(<<"EDGE", ToJson([file |-> file, hist |-> hist'])>>)
 View == <<file, off, lru, slot, nops>>
+(* History-complete enumeration. The witness walks above cover every transition of THIS model's state graph; a     *)
+(* defect of the real cache has a state of its own (two chunks sharing a slot, a slot marked free while in use)   *)
+(* that only some histories reach. Here the walk itself is the state (no VIEW): every sequence of MaxOps reads    *)
+(* and seeks over ONE file whose bytes are pairwise different, so that a chunk served from the wrong slot shows.   *)
+InitRamp == /\ file = [i \in 1..MaxLen |-> i - 1] /\ off = 0 /\ lru = <<>> /\ slot = <<>>
+            /\ hits = 0 /\ misses = 0 /\ nops = 0 /\ hist = <<>>
+SpecRamp == InitRamp /\ [][Next]_vars
+EmitFull == nops' < MaxOps \/ PrintT(<<"EDGE", ToJson([file |-> file, hist |-> hist'])>>)
 =============================================================================
